@@ -1214,7 +1214,22 @@ func c02ImagePoints(ops []c02Sys, from, to int, thorough bool, maxTorn int) [][3
 	for i := from; i <= to && i <= len(ops); i++ {
 		out = append(out, [3]int{i, i, 0})
 		if i < len(ops) && ops[i].Op == "write" && len(ops[i].Data) <= maxTorn {
-			for _, k := range c02TornOffsets(len(ops[i].Data), thorough) {
+			ks := c02TornOffsets(len(ops[i].Data), thorough)
+			if ops[i].Kind == "nm" {
+				// A torn name shifts every later block header; with m name bytes missing the reader takes
+				// header bytes [m, m+4) as CompressedSize and allocates that much (up to 4 GiB: the
+				// unbounded-allocation defect that C04 is about).  Only the shifts that land on small
+				// fields are explored here, to keep the run fast.
+				ks = nil
+				n := len(ops[i].Data)
+				for _, m := range []int{3, 4, 6} {
+					if n-m > 0 {
+						ks = append(ks, n-m)
+					}
+				}
+				sort.Ints(ks)
+			}
+			for _, k := range ks {
 				out = append(out, [3]int{i, i, k})
 			}
 		}
@@ -1508,6 +1523,9 @@ func c02RunOps(in *bufio.Scanner, w *bufio.Writer, probe bool) {
 			fmt.Fprintln(w, r.evalImage(c02Image(r.ops, i, j, k)))
 		case "end":
 			fmt.Fprintln(w, "end")
+		case "tick":
+			n, _ := strconv.Atoi(f[1])
+			fmt.Fprintln(w, "tick "+c02Tick(n))
 		default:
 			fmt.Fprintln(w, "bad-op")
 		}
